@@ -32,6 +32,7 @@ func checkC16(p *Prog, r *Report) {
 	inputHelpers(p, r, "C16.R12")
 	dateFrameRule(p, r, "C16.R13")
 	tillagePostponement(p, r, "C16.R14")
+	readersAllLines(p, r, "C16.R15")
 }
 
 // C16.R9 — "with fixed dates sowing and harvest happen on the dates of the
